@@ -4,6 +4,7 @@ let two32 = n_of_string "4294967296"
 
 type case = {
   cfg : rcfg; th : int; panic : (psite * int * int) option; scr : scripts;
+  tuned : bool; flim : nat option;
 }
 
 let bits4 s =
@@ -24,7 +25,7 @@ let parse_script s =
 
 let parse_case line : case =
   let e = ref 0 and sh = ref "0000" and cs = ref "0000" and u = ref false and ss = ref 1 and sc = ref 1
-  and th = ref 1 and test = ref false and p = ref None
+  and th = ref 1 and test = ref false and p = ref None and tuned = ref false and flim = ref None
   and g = ref [] and k = ref [] and f = ref [] and o = ref [] and i = ref [] in
   List.iter (fun tok ->
       match String.index_opt tok '=' with
@@ -36,7 +37,9 @@ let parse_case line : case =
          | "sh" -> sh := v
          | "cs" -> cs := v
          | "u" -> u := (v = "1")
-         | "ss" -> ss := int_of_string v
+         | "ss" -> if v = "-" then (tuned := true; ss := 1) else ss := int_of_string v
+         | "cost" | "prec" -> ()     (* clock parameters: the round sizes they lead to come from the history *)
+         | "FL" -> if v <> "-" then flim := Some (nat_of_int (int_of_string v))
          | "sc" -> sc := int_of_string v
          | "th" -> th := int_of_string v
          | "test" -> test := (v = "1")
@@ -59,7 +62,7 @@ let parse_case line : case =
             r_cs = { c_bytes = c0; c_chars = c1; c_cycles = c2; c_items = c3 };
             r_udrop = !u; r_size = nat_of_int !ss; r_count = nat_of_int !sc;
             r_aux = nat_of_int (!th - 1); r_test = !test };
-    th = !th; panic = !p;
+    th = !th; panic = !p; tuned = !tuned; flim = !flim;
     scr = { sc_gen = !g; sc_count = !k; sc_call = !f; sc_dropout = !o; sc_dropin = !i } }
 
 (* ---- events <-> tokens ---- *)
@@ -269,9 +272,102 @@ let panic_sb line =
       match !bad with Some w -> verdict false w | None -> "true"
     end
 
+(* ---- tuned sample size: round sizes come from the recorded history (thread 0's log) ---- *)
+
+let sizes_of_impl (im : impl) : int list =
+  match im.logs with
+  | [] -> []
+  | l0 :: _ ->
+    let l' = (match l0 with OTsStart :: r -> r | l -> l) in
+    List.map (fun s -> List.length (List.filter (function OCall _ -> true | _ -> false) s)) (split_samples l')
+
+let prefix_sums sizes =
+  let rec go acc = function [] -> [] | n :: r -> (n, acc) :: go (acc + n) r in
+  go 0 sizes
+
+(* the rounds whose samples are kept: from the first round with the final size on *)
+let kept_rounds sizes =
+  match List.rev sizes with
+  | [] -> []
+  | last :: _ ->
+    let rec drop = function (n, b) :: r when n <> last -> drop r | l -> l in
+    drop (prefix_sums sizes)
+
+let tuned_allocs (c : case) sizes (fig : int -> int -> figures option) =
+  let t = int_of_nat (eff_aux c.cfg) + 1 in
+  List.concat (List.mapi (fun j (n, base) ->
+      match fig n base with
+      | Some f when not (figures_empty f) -> List.init t (fun k -> (nat_of_int (j * t + k), f))
+      | _ -> []) (kept_rounds sizes))
+
+let tuned_model line =
+  let (cl, il) = split_sb line in
+  let c = parse_case cl in
+  match parse_impl il with
+  | None -> "no-history " ^ il
+  | Some im ->
+    let sizes = sizes_of_impl im in
+    let nsizes = List.map nat_of_int sizes in
+    let nthreads = max c.th (int_of_nat (eff_aux c.cfg) + 1) in
+    let logs = List.init nthreads (fun t ->
+        if t > int_of_nat (eff_aux c.cfg) then [] else thread_log_sizes c.cfg nsizes (nat_of_int t)) in
+    let allocs = tuned_allocs c sizes (fun n base ->
+        sample_figures_at c.cfg c.scr c.flim (nat_of_int n) (nat_of_int base) []) in
+    render "ok" logs allocs
+
+let explain_sizes (c : case) sizes t (l : n oev list) : string =
+  let cfg = c.cfg in
+  if t > int_of_nat (eff_aux cfg) then "thread-must-not-run"
+  else
+    let l' = if t = 0 then (match l with OTsStart :: r -> r | [] -> [] | _ -> l) else l in
+    let ss = split_samples l' in
+    if List.length ss <> List.length sizes then
+      Printf.sprintf "sample-count:%d-thread0:%d" (List.length ss) (List.length sizes)
+    else begin
+      let msg = ref "thread-affinity-or-timed-split" in
+      (try
+         List.iteri (fun k (s, (n, base)) ->
+             let m = mcfg_of cfg.r_entry cfg.r_shape (nat_of_int n) cfg.r_cs in
+             let f = localize (nat_of_int t) (nat_of_int base) m.m_n in
+             let loc = List.map (map_ev_n f) s in
+             (match mon_run m loc mstate0 O with
+              | MBad (cl, pos) -> msg := Printf.sprintf "round:%d:size:%d:event:%d:%s" k n (int_of_nat pos) (clause_s cl); raise Exit
+              | MOk st -> if not (mon_final m st) then (msg := Printf.sprintf "round:%d:size:%d:end:%s" k n (clause_s ClLeak); raise Exit));
+             if not (sb_timed s) then (msg := Printf.sprintf "round:%d:%s" k (clause_s ClTimedPure); raise Exit))
+           (List.combine ss (prefix_sums sizes))
+       with Exit -> ());
+      !msg
+    end
+
+let tuned_sb line =
+  let (cl, il) = split_sb line in
+  let c = parse_case cl in
+  match parse_impl il with
+  | None -> verdict false ("outcome:" ^ il)
+  | Some im ->
+    if im.res <> "ok" then verdict false "unexpected-panic"
+    else begin
+      let sizes = sizes_of_impl im in
+      let nsizes = List.map nat_of_int sizes in
+      let bad = ref None in
+      if sizes = [] || List.exists (fun n -> n = 0) sizes then bad := Some "no-round-ran";
+      List.iteri (fun t l ->
+          if !bad = None && not (sb_thread_sizes c.cfg nsizes (nat_of_int t) l) then
+            bad := Some (Printf.sprintf "thread:%d:%s" t (explain_sizes c sizes t l))) im.logs;
+      if !bad = None && List.length im.logs <= int_of_nat (eff_aux c.cfg) then bad := Some "thread-missing";
+      match !bad with
+      | Some w -> verdict false w
+      | None ->
+        let want = List.map fig_s (tuned_allocs c sizes (fun n base ->
+            Some (spec_figures_at c.cfg c.scr c.flim (nat_of_int n) (nat_of_int base)))) in
+        if im.allocs <> want then verdict false "kept-sample-figures-are-not-the-tally-of-its-own-calls" else "true"
+    end
+
 let dispatch mode line =
   match mode with
   | "run" | "alloc" | "panic" -> model_line line
+  | "tuned" | "tuned-alloc" -> tuned_model line
+  | "tuned.sb" | "tuned-alloc.sb" -> tuned_sb line
   | "run.sb" -> run_sb ~alloc:false line
   | "alloc.sb" -> run_sb ~alloc:true line
   | "panic.sb" -> panic_sb line
